@@ -9,6 +9,7 @@ from vf import core
 
 META = {
     'property_id': 'C19',
+    'confirm_by_replay': True,   # bin/check re-executes the stimulus of every violation before it is reported
     'level': 'model_checking',
     'technique': 'configuration-route decision table and collector life cycle in TLA+ (Telemetry.tla), enumerated by '
                  'TLC; every route combination executed through the real NewConfig and a real one-node server (and the '
